@@ -977,7 +977,28 @@ func (e *Engine) exec(st *State, f *Frame, ins ssa.Instruction) {
 			e.invoke(st, d.fn, d.args, nil, i.Pos())
 		}
 	case *ssa.Go:
-		panic(unsupported{"go statement"})
+		// single-threaded model: the spawned function is not run; its effects (channel pumps, timers)
+		// are outside every claim. Recorded so the evidence lists it.
+		modelsUsed["go statement: spawned goroutine not run"]++
+	case *ssa.MakeChan:
+		sz := term(e.get(st, i.Size))
+		capN := 0
+		if sz.k {
+			capN = int(sz.c)
+		}
+		f.env[i] = Pointer{obj: st.alloc(&Object{typ: i.Type(), isChan: true, chanCap: capN}), off: BV(64, 0)}
+	case *ssa.Send:
+		ch, ok := e.get(st, i.Chan).(Pointer)
+		if !ok || ch.obj == 0 {
+			panic(unsupported{"send on nil channel (blocks forever)"})
+		}
+		o := st.wobj(ch.obj)
+		if !o.isChan {
+			panic(unsupported{"send on non-channel object"})
+		}
+		// a send that would block is accepted: the single-threaded model has an environment that
+		// always drains (sends are recorded in order)
+		o.vals = append(o.vals, e.get(st, i.X))
 	case *ssa.Jump:
 		e.jump(st, f, f.blk.Succs[0])
 	case *ssa.If:
@@ -2130,6 +2151,11 @@ func (e *Engine) builtin(st *State, name string, args []Value, call *ssa.Call, p
 			return Ite(lt, a, b)
 		}
 		return Ite(lt, b, a)
+	case "close":
+		if p, ok := args[0].(Pointer); ok && p.obj != 0 {
+			st.wobj(p.obj).chanClosed = true
+		}
+		return TupleV{}
 	case "Sizeof", "Alignof":
 		t := call.Call.Args[0].Type()
 		if name == "Sizeof" {
